@@ -34,6 +34,10 @@ CLAIMED = {
          "Arbitrary modules (every card kind in every slot, unique card ids) and histories of get/insert/remove/replace/swap/walk plus the law pairs insert;remove, replace;replace-back, swap;swap, with indices valid w.r.t. the evolving model or invalid in a specific way; Ok/Err, the resulting id-tree, serde_json text after failed edits and child count/enumeration/lookup agreement are checked after every op.",
          "Trusts the tree model and its list-vs-fixed-slot table (taken from the doc comment of insert_child); swap(a,a) is taken to be the identity.",
          "DESIGN.md section 4, C16"),
+ "C18": ("exploration", "differential testing of generated native-call programs against a conversion model in the reference interpreter, plus stack-height invariants measured inside re-entering natives (proptest-driven)",
+         "Natives with 25 typed signatures (arity 0-4 over every supported parameter type) and value-returning natives are called with arguments of every kind through CallNative, native values + DynamicCall and re-entering natives, from main, from frames above other values and in loops; the reference interpreter applies the documented conversions and predicts recorded parameters, results, TaskFailure wrapping and which parameter must be named as rejected. Re-entry: the harness natives call0/call1/call2 measure value-stack and call-stack heights (hook) around every successful run_function; generated programs re-enter with script functions, capturing closures and natives as callees, nested. Reserved names must be unregistrable.",
+         "Trusts the conversion model (written from value.rs' documented TryFrom table) and the inspection hooks; when several parameters are unconvertible any of them may be named.",
+         "DESIGN.md section 4, C18"),
  "C19": ("exploration", "proptest-driven algebraic-law checking over generated value triples with a numeric reference model for the ordering",
          "Random triples of host-constructed values with deliberately related members (equal-content copies, reordered/prefix/deep-different tables, int/real twins, length twins, signed zeros, 2^53/2^63 edges); all ordered pairs are checked against the equivalence, hash-consistency (std hash and table-key aliasing), order/equality coherence, asymmetry and numeric-model laws exactly on the domains the statement gives. Search, not proof.",
          "The numeric model encodes the statement's coercions (nil=0, string/table=length against a number); ints beyond 2^53 against reals and reordered tables are observed, not asserted.",
